@@ -137,6 +137,14 @@ func runC10(cx *Ctx, r *Report) {
 			ok := c == lastArg(pay.ev) && strings.Contains(c, "getTokenByContract(keeper, receipt.Logs[") && strings.Contains(c, "].Address)#0.MinUnit") && strings.Contains(c, "abi.ABI.Unpack(") && strings.Contains(c, ".Data)#0[2]") &&
 				strings.Contains(pay.ev.Args[2].LooseString(), "abi.ABI.Unpack(") && strings.Contains(pay.ev.Args[2].LooseString(), ".Data)#0[1]")
 			r.check(ok, "provenance", name, mint.ev.Pos(cx), "minted coin = (min unit of the token registered for the emitting contract, amount decoded from that log's data), paid to the log's recipient", "hook mints "+c+" and pays "+lastArg(pay.ev)+" to "+pay.ev.Args[2].LooseString())
+			// the decoded amount is a 256-bit value: it reaches the mint at full width
+			narrow := ""
+			for _, n := range []string{"big.Int.Uint64(", "big.Int.Int64(", "math.Int.Uint64(", "math.Int.Int64(", "NewIntFromUint64(", "math.NewInt(", "big.Int.IsUint64("} {
+				if strings.Contains(c, n) {
+					narrow = strings.TrimSuffix(n, "(")
+				}
+			}
+			r.check(narrow == "", "full-width-amount", name, mint.ev.Pos(cx), "the amount decoded from the log is minted without a narrowing conversion", "the amount decoded from the SwapToNative log passes through "+narrow+" before it is minted: amounts of 2^64 base units or more (≈18.4 tokens at 18 decimals) are truncated, the ERC20 side has burned the full amount, and the difference is destroyed")
 			fs := mint.w.FactsAt(mint.ev.Fr, mint.ev.Site)
 			_, ok1 := hasFact(fs, true, "getTokenByContract(keeper, receipt.Logs[", " : err==nil")
 			_, ok2 := hasFact(fs, false, ".Name != \"SwapToNative\"")
